@@ -184,7 +184,7 @@ impl Prop for Write {
         Ok(WriteCase { i, off: gen::offset_minutes(u)?, prec: u.below(5)? as u8, local_now })
     }
     fn check(c: &WriteCase, cx: &mut Cx) -> Verdict {
-        if !c.i.valid() || c.off % 60 != 0 || c.off.abs() > 86_340 || c.prec > 4 {
+        if !c.i.valid() || c.off % 60 != 0 || c.off.unsigned_abs() > 86_340 || c.prec > 4 {
             return Verdict::Skip("malformed case");
         }
         let local = c.i.i() + c.off as i128 * tl::NS;
